@@ -52,6 +52,7 @@ type sop struct {
 	End   int      `json:"end,omitempty"`
 	Merge bool     `json:"merge,omitempty"`
 	TS    int      `json:"ts,omitempty"`
+	Twice bool     `json:"twice,omitempty"`
 	P     string   `json:"p,omitempty"`
 }
 
@@ -475,8 +476,19 @@ func (r *runner) step(i int, o *sop) (e ev, stop bool) {
 		e["files"] = r.listFiles()
 		e["meta"] = r.metaAll()
 	case "gc":
+		// sequential family: no rotation flush is pending when GC is requested (the race
+		// "GC over a just rotated, not yet flushed file" belongs to the schedule family)
+		for c := range r.pendingRot {
+			ok := r.releaseRot(c, true)
+			vl.emit(ev{"a": "RotFlush", "l": 1, "p": "rotf" + strconv.Itoa(c), "c": c, "ran": ok})
+			delete(r.pendingRot, c)
+		}
 		vs.setProc("gc")
 		e["a"], e["p"], e["begin"], e["end"], e["merge"] = "GC", "gc", o.Begin, o.End, o.Merge
+		old, sure := r.ages()
+		e["old"], e["agesure"] = old, sure
+		e["head"] = r.bkt.datas.newHead
+		before := r.inventory()
 		b, en, err := r.bkt.gcCheckRange(o.Begin, o.End, 0)
 		if err != nil {
 			e["res"], e["err"] = "err", err.Error()
@@ -488,6 +500,19 @@ func (r *runner) step(i int, o *sop) (e ev, stop bool) {
 				e["res"], e["err"] = "err", st.Err.Error()
 			}
 			e["files"] = r.listFiles()
+			after := r.inventory()
+			e["frame"], e["created"] = frameOf(before, after)
+			e["scan"] = r.refScanAll()
+			e["reads"] = r.readAll()
+			if o.Twice && st.Err == nil {
+				b2, en2, err2 := r.bkt.gcCheckRange(b, en, 0)
+				if err2 == nil && b2 == b && en2 == en {
+					r.store.gcMgr.gc(r.bkt, b2, en2, o.Merge)
+					st2 := r.bkt.GCHistory[len(r.bkt.GCHistory)-1]
+					e["released2"] = st2.NumReleased
+					e["scan2"] = r.refScanAll()
+				}
+			}
 		}
 	case "readall":
 		vs.setProc("c1")
@@ -517,6 +542,39 @@ func (r *runner) step(i int, o *sop) (e ev, stop bool) {
 		}
 	}
 	return
+}
+
+// GC age predicate input: for every data file, is its first record older than "now"?
+// (read with the harness's own header parse; a file whose first timestamp is within a
+// second of now makes the answer unsure)
+func (r *runner) ages() (map[string]bool, bool) {
+	out := map[string]bool{}
+	sure := true
+	now := time.Now().Unix()
+	names, _ := filepath.Glob(r.bkt.Home + "/*.data")
+	for _, p := range names {
+		c, err := strconv.Atoi(filepath.Base(p)[:3])
+		if err != nil {
+			continue
+		}
+		f, err := os.Open(p)
+		if err != nil {
+			continue
+		}
+		var h [8]byte
+		n, _ := f.ReadAt(h[:], 0)
+		f.Close()
+		if n < 8 {
+			continue
+		}
+		ts := int64(uint32(h[4]) | uint32(h[5])<<8 | uint32(h[6])<<16 | uint32(h[7])<<24)
+		d := now - ts
+		out[strconv.Itoa(c)] = d > 0
+		if d >= -1 && d <= 1 {
+			sure = false
+		}
+	}
+	return out, sure
 }
 
 // memOnly meta of every key (version memory after open: used only for DELETED keys, C02)
